@@ -233,6 +233,9 @@ type Chain struct {
 	// Proofs: suffrage proofs by suffrage height (as produced by the Writer)
 	Proofs []base.SuffrageProof
 
+	// jump is added to the height of every further block (Jump)
+	jump int64
+
 	mu      sync.Mutex
 	mst     *leveldbstorage.Storage
 	states  map[string]base.State
@@ -256,6 +259,11 @@ func (c *Chain) getState(key string) (base.State, bool, error) {
 	return st, found, nil
 }
 
+// Jump leaves n heights out: the next block is n heights further up (its
+// manifest still names the last written block as previous). Used for suffrage
+// proofs whose block is far above their suffrage height.
+func (c *Chain) Jump(n int64) { c.jump += n }
+
 // Close releases the chain's scratch database (files stay).
 func (c *Chain) Close() { _ = c.mst.Close() }
 
@@ -278,13 +286,13 @@ func (d *captureBWDB) SetSuffrageProof(p base.SuffrageProof) error {
 func (c *Chain) Add(spec Spec, rng *rand.Rand) (*Block, error) {
 	r := c.R
 	ctx := context.Background()
-	height := base.Height(int64(len(c.Blocks)))
+	height := base.Height(int64(len(c.Blocks)) + c.jump)
 	point := base.NewPoint(height, spec.Round)
 
 	var prevManifest base.Manifest
 	var prevHash util.Hash
 
-	if height > base.GenesisHeight {
+	if len(c.Blocks) > 0 {
 		prevManifest = c.Blocks[len(c.Blocks)-1].Manifest
 		prevHash = prevManifest.Hash()
 	}
